@@ -421,6 +421,10 @@ pub fn run_probe<S: Sut>(w: &mut World<S>, p: &Probe) -> Res {
 fn w_decode<S: Sut>(w: &World<S>, b: &crate::engine::Blob<S>) -> Result<S, Failure> {
     match b {
         crate::engine::Blob::Mem(s) => Ok(s.clone()),
+        crate::engine::Blob::Both(t, s) => match guard(|| S::de(t)) {
+            Ok(Ok(x)) => Ok(x),
+            _ => Ok(s.clone()),
+        },
         crate::engine::Blob::Json(t) => match guard(|| S::de(t)) {
             Ok(Ok(s)) => Ok(s),
             Ok(Err(e)) => fail(w.step, "serde.de", format!("state does not deserialise: {}", dq(e))),
